@@ -348,6 +348,33 @@ def _cancel_poly_atoms(r):
     return r
 
 
+def to_fraction(x):
+    """x as (numerator, denominator), both polynomials without inverse polynomial atoms and without negative powers"""
+    x = Num.const(x) if not isinstance(x, Num) else x
+    num, den = Num.const(0), Num.const(1)
+    for m, c in x.terms.items():
+        tn, td = Num.const(c), Num.const(1)
+        for a, p in m:
+            if a.kind == "poly":
+                pn, pd = to_fraction(a.payload)
+                if p > 0:
+                    tn, td = tn * pn ** p, td * pd ** p
+                else:
+                    tn, td = tn * pd ** (-p), td * pn ** (-p)
+            elif p > 0:
+                tn = tn * Num.of_atom(a) ** p
+            else:
+                td = td * Num.of_atom(a) ** (-p)
+        num, den = num * td + tn * den, den * td
+    return num, den
+
+
+def is_identically_zero(x):
+    """exact decision of x == 0 as a rational-function identity (denominators are non-zero by separate obligations)"""
+    n, _ = to_fraction(x)
+    return n.is_zero()
+
+
 # ----------------------------------------------------------------------------------------------------------- log / exp
 
 
